@@ -947,6 +947,68 @@ fn fault_corpus() -> Vec<(String, Vec<XOp>)> {
     vec![("fault-rename-fails".into(), vec![put(PayloadKind::Ascii, 200, 1, 100), XOp::FaultReplaceByDir])]
 }
 
+/// Path forms (seed C19-1 skipped the sidecar scan for a bare relative file name): the guard must not depend
+/// on HOW the caller names the file.  A memory is addressed by its bare name (cwd = its directory), `./name`,
+/// `sub/../name`, a relative path with a directory component and the absolute path; with each of the eight
+/// sidecars planted, every entry point must answer AuxiliaryFileDetected naming that sidecar and leave listing
+/// and bytes alone — exactly what the absolute form (the one the model stream uses) does.
+/// Runs before any thread is started: it changes the process's working directory and restores it.
+fn path_forms_scenario(sum: &mut Summary, base: &Path) {
+    let dir = base.join("forms");
+    let sub = dir.join("sub");
+    std::fs::create_dir_all(&sub).expect("forms dir");
+    let old = std::env::current_dir().expect("cwd");
+    for (mem_dir, name, forms) in [
+        (dir.clone(), "rel.mv2", vec![("bare", PathBuf::from("rel.mv2")), ("dot", PathBuf::from("./rel.mv2")), ("updown", PathBuf::from("sub/../rel.mv2")), ("absolute", dir.join("rel.mv2"))]),
+        (sub.clone(), "m2.mv2", vec![("rel-dir", PathBuf::from("sub/m2.mv2")), ("dot-dir", PathBuf::from("./sub/m2.mv2")), ("absolute", sub.join("m2.mv2"))]),
+    ] {
+        let abs = mem_dir.join(name);
+        {
+            let mut m = Memvid::create(&abs).expect("create");
+            let _ = m.put_bytes(b"path forms scenario payload");
+            let _ = m.commit();
+        }
+        std::env::set_current_dir(&dir).expect("chdir");
+        for k in 0..8 {
+            let cand = cand_name(name, k);
+            std::fs::write(mem_dir.join(&cand), b"caller's own file").expect("plant");
+            for (label, p) in &forms {
+                for api in [Api::Create, Api::Open, Api::OpenRo, Api::Doctor] {
+                    let (h0, l0) = (file_hash(&abs), listing(&mem_dir));
+                    let (res, h) = call_api(api, p, &mem_dir);
+                    drop(h);
+                    let (h1, l1) = (file_hash(&abs), listing(&mem_dir));
+                    let named = res.strip_prefix("aux:").map(|n| Path::new(n).file_name().map(|f| f.to_string_lossy().to_string()).unwrap_or_default());
+                    sum.branch(&format!("form-{label}"));
+                    sum.case(&format!("forms|{name}|{k}|{label}|{api:?}|{res}"), true, || json!({"part": "path-forms", "form": label, "api": format!("{api:?}"), "sidecar": cand, "answer": res}));
+                    let case = json!({"kind": "path-forms", "memory": name, "form": label, "path": p, "api": format!("{api:?}"), "sidecar": cand});
+                    if named.is_none() {
+                        sum.oracle_violation("sidecar-not-refused", &format!("{api:?}({}) [{label} form, cwd = the memory's directory{}] with sidecar {cand} present answered `{res}` instead of AuxiliaryFileDetected",
+                            p.display(), if mem_dir == dir { "" } else { "'s parent" }), case);
+                    } else if named.as_deref() != Some(cand.as_str()) {
+                        sum.oracle_violation("refusal-names-wrong-path", &format!("{api:?}({}) refused with `{res}` but the planted sidecar is {cand}", p.display()), case);
+                    } else if h0 != h1 || l0 != l1 {
+                        sum.oracle_violation("refusal-changed-state", &format!("{api:?}({}) refused ({res}) but listing {l0:?} -> {l1:?}, memory bytes {h0} -> {h1}", p.display()), case);
+                    }
+                }
+            }
+            let _ = std::fs::remove_file(mem_dir.join(&cand));
+        }
+        // without a sidecar every form opens the same memory
+        for (label, p) in &forms {
+            let (res, h) = call_api(Api::OpenRo, p, &mem_dir);
+            let n = h.as_ref().map(|m| verif_hooks::verif_frames(m).len()).unwrap_or(0);
+            drop(h);
+            if res != "ok" || n != 1 {
+                sum.oracle_violation("path-form-opens-differently", &format!("open_read_only({}) [{label}] answered `{res}` with {n} frame(s); the absolute form opens 1 frame", p.display()),
+                    json!({"kind": "path-forms", "memory": name, "form": label}));
+            }
+        }
+        std::env::set_current_dir(&old).expect("restore cwd");
+    }
+    let _ = std::env::set_current_dir(&old);
+}
+
 fn ops_to_json(ops: &[XOp]) -> Value { serde_json::to_value(ops).unwrap() }
 
 fn main() {
@@ -970,12 +1032,19 @@ fn main() {
         "caller-file", "lock-contention", "missing-path", "refused-Create", "refused-Open", "refused-OpenRo", "refused-Doctor", "refused-TryOpen", "refused-Verify",
         "refused-create-of-new-memory", "fail-capacity", "fail-dim-mismatch", "fail-not-found", "read-call", "commit-without-work",
         "contention-Create", "contention-Open", "contention-OpenRo", "fault-injection-rename-fails-temp-leaked",
-        "staging-dropped-on-early-return", "staging-discarded-on-op-error", "staging-discarded-in-destructor"]);
+        "staging-dropped-on-early-return", "staging-discarded-on-op-error", "staging-discarded-in-destructor",
+        "form-bare", "form-dot", "form-updown", "form-rel-dir", "form-absolute"]);
     let mut drv = if args.driver.as_os_str() == "none" { None } else { Some(Driver::spawn(&args.driver).expect("spawn driver")) };
 
     if args.mode == "replay" {
         let case = load_replay(args.replay_file.as_ref().expect("replay file"));
         let input = case.get("input").cloned().unwrap_or(case);
+        if input.get("kind").and_then(|k| k.as_str()) == Some("path-forms") {
+            path_forms_scenario(&mut sum, &base);
+            for v in &sum.oracle_violations { println!("ORACLE VIOLATED: {}: {}", v["signature"], v["what"]); }
+            let _ = std::fs::remove_dir_all(&base); let _ = std::fs::remove_dir_all(&lock_base);
+            sum.finish(&args);
+        }
         if let Some(api) = input.get("api").and_then(|a| a.as_str()) {
             // a lock-contention scenario
             let api = match api { "Create" => Api::Create, "OpenRo" => Api::OpenRo, _ => Api::Open };
@@ -997,6 +1066,7 @@ fn main() {
         sum.finish(&args);
     }
 
+    path_forms_scenario(&mut sum, &base);
     // lock contention threads run while the histories do
     let lb = lock_base.clone();
     let (tx, rx) = std::sync::mpsc::channel::<()>();
